@@ -1161,6 +1161,7 @@ static int32 tls13WriteCertificateVerify(ssl_t *ssl, sslBuf_t *out)
     if (chosenSigAlg == 0 || hmacLen < 0)
     {
         psTraceErrr("Failed to negotiate CertificateVerify sig alg\n");
+        psDynBufUninit(&cvBuf);
         ssl->err = SSL_ALERT_HANDSHAKE_FAILURE;
         return SSL_SEND_RESPONSE;
     }
@@ -1179,6 +1180,7 @@ static int32 tls13WriteCertificateVerify(ssl_t *ssl, sslBuf_t *out)
         rc = tls13TranscriptHashSnapshot(ssl, trHash);
         if (rc < 0)
         {
+            psDynBufUninit(&cvBuf);
             return rc;
         }
 
@@ -1208,6 +1210,7 @@ static int32 tls13WriteCertificateVerify(ssl_t *ssl, sslBuf_t *out)
                 &ssl->sec.tls13CvSigLen);
         if (rc < 0)
         {
+            psDynBufUninit(&cvBuf);
             return rc;
         }
 
@@ -1253,6 +1256,7 @@ static int32 tls13WriteCertificateVerify(ssl_t *ssl, sslBuf_t *out)
             {
                 psFree(ssl->sec.tls13CvSig, ssl->hsPool);
                 psFree(ssl->hsPool, tbs);
+                psDynBufUninit(&cvBuf);
                 psTraceErrr("Could not verify own sig!!\n");
                 return rc;
             }
